@@ -505,6 +505,15 @@ pub fn check_verdict<S: rustic_core::Open>(repo: &Repository<S>, read_data: bool
     CheckVerdict::Inconclusive(last)
 }
 
+/// `check_verdict` on a handle given away, with deadlock detection: `Err` = the check never returns
+/// (see `engine::run_detecting_deadlock`)
+pub fn check_verdict_owned<S: rustic_core::Open + Send + Sync + 'static>(
+    repo: Repository<S>,
+    read_data: bool,
+) -> Result<CheckVerdict, String> {
+    crate::engine::run_detecting_deadlock(move || check_verdict(&repo, read_data))
+}
+
 /// Ok(()) = no Error-level finding. The (rare) persistent index hand-back race is reported as Ok
 /// and counted by the caller through `check_verdict` where it matters.
 pub fn check_repo<S: rustic_core::Open>(repo: &Repository<S>, read_data: bool) -> Result<(), String> {
